@@ -117,6 +117,8 @@ func c10Run(e *core.Env) {
 			}
 		}
 	}
+	// precisions beyond the 128-entry power-of-ten table (10^Precision itself is then computed, not looked up)
+	ctxs = append(ctxs, MkCtx(129, -6143, 6144, apd.RoundHalfEven, 0), MkCtx(200, -6143, 6144, apd.RoundDown, 0))
 	// exponent ranges narrower than the precision: an integer quotient of up to Precision digits has an
 	// adjusted exponent above MaxExponent (or, with a positive MinExponent, below it) and is still returned exactly
 	for _, m := range []apd.Rounder{apd.RoundHalfEven, apd.RoundUp} {
@@ -191,10 +193,10 @@ func init() {
 			if tier == "thorough" {
 				return "x in DENSE(3,5)+EDGE, y in selected DENSE(3,4)+EDGE, contexts p in {1,2,3,4,5,9} x 11 ranges x 3 modes + 4 ranges narrower than the precision (Emax < p-1, Emin > 0) x 2 modes; LIMIT x (LIMIT + 4 small) in both orders at p in {3,9}"
 			}
-			return "x in 69 selected coefficients x exp[-4,4] x sign + EDGE, y in 21 coefficients x exp[-3,3] x sign + EDGE, contexts p in {1,2,3,9} x 4 ranges x 4 modes (half_even, up, floor, ceiling) + p in {19,20,38,39} x 2 modes + 4 ranges narrower than the precision (Emax < p-1, Emin > 0) x 2 modes; LIMIT x (LIMIT + 4 small) in both orders at p in {3,9}"
+			return "x in 69 selected coefficients x exp[-4,4] x sign + EDGE, y in 21 coefficients x exp[-3,3] x sign + EDGE, contexts p in {1,2,3,9} x 4 ranges x 4 modes (half_even, up, floor, ceiling) + p in {19,20,38,39} x 2 modes + p in {129,200} + 4 ranges narrower than the precision (Emax < p-1, Emin > 0) x 2 modes; LIMIT x (LIMIT + 4 small) in both orders at p in {3,9}"
 		},
-		Run:    c10Run,
-		Replay: c10Replay,
+		Run:         c10Run,
+		Replay:      c10Replay,
 		Assumptions: []string{"exact integer oracle on math/big; operand gaps beyond the package limit may return an exponent-out-of-range error"},
 	})
 }
